@@ -53,6 +53,45 @@ CHECKS["C16"] = dict(
     note="Trusted: TLC, Json module, harness projection (bytes as integer arrays, float64 as exact mantissa*2^e), Go time for zone names. Not judged: shortest-digit float printing, C-library dependent spellings (hex floats, inf/nan), %c layout (locale-defined), DST zones.",
     specs=["Lexical", "LexicalMC", "LexicalGen", "LexicalTrace", "Calendar", "CalendarMC"])
 
+CHECKS["C06"] = dict(
+    technique="LuaSem coroutine rules (continuation per thread, status machine, value transfer) evaluated by TLC on generated coroutine scripts; status-machine invariants (CoInv) checked by TLC on every state; real traces validated by LuaSemTrace",
+    category="model_checking",
+    text="Scripts over 1-3 coroutines (create/wrap) whose bodies yield, resume any coroutine (incl. resumer, self, dead), query status, yield from nested/tail calls, loop with locals across yields, return or fail, driven by a main script, are run on the real interpreter; the trace (payload order and number, statuses, error propagation) must be the one LuaSem defines, and TLC checks on every spec state that exactly one thread runs, normal = resumer chain, dead keeps nothing.",
+    design_ref="DESIGN.md section 4 C06", note=LSEM_NOTE + " No yield across pcall/metamethods/iterators (Lua 5.1 rejects it).", specs=["LuaSem", "LuaSemTrace"])
+CHECKS["C11"] = dict(
+    technique="design spec Cancel model-checked by TLC (dispatch bound, liveness); cancellation at every dispatch poll of a looping corpus on the real VM judged by TLC (LuaSemCancel) against the prefix of the uncancelled TLA+ behaviour; bounded-wait runs for blocking channel operations",
+    category="model_checking",
+    text="TLC proves on the design model that after cancellation no instruction completes and the loop exits within depth+1 dispatch attempts (and eventually, under fairness). 15 terminating and non-terminating programs (tight loops, recursion, tail calls, goto, pcall/xpcall retry loops, looping handlers, metamethod recursion, coroutine ping-pong, generators) are cancelled at every dispatch poll k; TLC judges each run: error carrying the reason, effects a prefix of the uncancelled behaviour, nothing after the cancelling poll, dispatch attempts after cancellation bounded by the call depth. Blocking receive/send/select and coroutines are sampled with a real context; attaching an undone context must not change traces.",
+    design_ref="DESIGN.md section 4 C11", note=LSEM_NOTE + " Polls inside coroutines are not observed (child context). Blocking operations use wall-clock bounds (4 s).", specs=["Cancel", "LuaSem", "LuaSemCancel"])
+CHECKS["C15"] = dict(
+    technique="TLA+ function specs StrLib/MathLib with laws model-checked by TLC; bounded-exhaustive call families exported by TLC (StrMathGen) replayed on the real library; listed/random calls judged by TLC (StrMathTrace)",
+    category="model_checking",
+    text="TLC proves on 132k small-scope cases that each specified operator agrees with an independent characterisation (sub/byte/find/format digit laws, modf/frexp/fmod recomposition, pow as repeated multiplication). The real functions are compared byte-exactly on complete finite families (all strings <=3/4 over 6 bytes x all indices, all 256 bytes, format flag/width/precision grids, dyadic number grids) and on seeded random calls judged by TLC.",
+    design_ref="DESIGN.md section 4 C15",
+    note="Trusted: TLC, Json module, harness value<->token conversion. No floating point in TLC: transcendentals, %e %E %f %g, inexact pow/sqrt, signed zeros, NaN, subnormals, huge values are not decided.",
+    specs=["StrLib", "MathLib", "StrMathEval", "StrMathMC", "StrMathGen", "StrMathTrace"])
+CHECKS["C18"] = dict(
+    technique="TLA+ spec ListLib checked by TLC against a transcription of ltablib.c (ListRef) over the Table map; histories from that state graph and enumerated sort cases replayed on the real table library; traces (results, list read-back, comparator call logs) validated by ListTrace",
+    category="model_checking",
+    text="TLC proves within list length <=5 that the sequence-level spec agrees with the element-wise reference algorithms and that SortOK admits exactly ordered permutations (errors only for failing/inconsistent comparators, comparator called only with elements). Every history to depth 4 (sampled depth 5, simulated 30-call histories) and sort cases over all sequences <=5 x 12 comparators x 6 list constructions run on the real library and are validated by TLC.",
+    design_ref="DESIGN.md section 4 C18",
+    note="Trusted: TLC, Json module, harness projection. Proper lists only; elements small integers/strings/true/tables; error texts not compared.",
+    specs=["ListLib", "ListRef", "ListMC", "ListTrace"])
+CHECKS["C19"] = dict(
+    technique="TLA+ specs ByteFile (reference byte sequence + cursor) and IoFile (sparse oracle) checked by TLC in lock-step; histories carrying TLC-computed expected results replayed through Lua on real files (GEN->replay), incl. seeded random histories evaluated by IoFileEval",
+    category="model_checking",
+    text="TLC checks that the sparse oracle returns exactly the reference model's result after every operation of every legal history on small files and holds cursor/length/closed-handle invariants on files up to 4097 bytes in all 12 open modes; the real io library is compared byte-exactly (read results, seek offsets, nil vs error, file on disk after close) on every transition of slices around the 4096-byte buffer plus random histories.",
+    design_ref="DESIGN.md section 4 C19",
+    note="Trusted: TLC, Json, byte generators mirrored in Go, OS file system. Histories obey the ISO C stream discipline the property states; io.popen, std handles, default-file functions not covered.",
+    specs=["IoData", "ByteFile", "IoFile", "IoFileMC", "IoFileEval"])
+CHECKS["C20"] = dict(
+    technique="TLA+ reference semantics of require/preload/path search/module/luaL_register (Require) with 3 invariants + 11 step laws checked by TLC; every history of a bounded operation alphabet exported with expected observations and replayed on the real module system; random histories and stdlib entries validated by RequireTrace",
+    category="model_checking",
+    text="TLC checks once-only loading, cache identity, preload precedence, loop errors, failure residue and error listing on the spec, exports every history over 15 loader behaviours x 4 loader sources x clear/unpreload/rmfile/RegisterModule operations, and each is executed on a fresh real LState with instrumented loaders; result identity, loader log, package.loaded[n], _G[n] must match TLC's expectation.",
+    design_ref="DESIGN.md section 4 C20",
+    note="Trusted: TLC, Json, reduction of error messages to classes. 2-3 names to depth 3-5 exhaustively, random to 50 ops; package.loaders/loaded/preload tables never replaced.",
+    specs=["Require", "RequireMC", "RequireTrace"])
+
 NOT_YET = {}
 
 
